@@ -58,8 +58,22 @@ def sim_metatypes():
     return os.path.join(GEN, "sim_metatypes.json")
 
 
-def translate(env, qml_text, type_name, workdir, no_dyn=False, hash_seed=1):
-    """run the real binary on one document -> dict(exit, stderr, ui, header)"""
+COMPANION = """import qmluic.QtWidgets
+QDialog {
+    id: companionRoot
+    QVBoxLayout {
+        QCheckBox { id: companionCheck; text: "c" }
+        QLabel { text: companionCheck.checked ? "on" : "off"; enabled: companionCheck.checked }
+        QPushButton { onClicked: companionRoot.accept() }
+    }
+}
+"""
+
+
+def translate(env, qml_text, type_name, workdir, no_dyn=False, hash_seed=1, incremental=True):
+    """run the real binary on one document -> dict(exit, stderr, ui, header).
+    The header is emitted the way a build system gets it: by the second of two invocations of one process over several
+    sources, where an earlier-named source (a fixed companion) is already up to date on disk."""
     os.makedirs(workdir, exist_ok=True)
     src = os.path.join(workdir, type_name + ".qml")
     with open(src, "w", encoding="utf-8") as f:
@@ -67,6 +81,13 @@ def translate(env, qml_text, type_name, workdir, no_dyn=False, hash_seed=1):
     argv = ["generate-ui", "--foreign-types", env.metatypes, "--foreign-types", sim_metatypes()]
     if no_dyn:
         argv.append("--no-dynamic-binding")
+    if incremental:
+        with open(os.path.join(workdir, "Companion0.qml"), "w", encoding="utf-8") as f:
+            f.write(COMPANION)
+        # first build: the companion alone (only the document's own file may not exist yet for discovery to be the same:
+        # it is written above, so both runs see the same directory)
+        kernel.run(env, workdir, argv + ["Companion0.qml"], hash_seed=hash_seed, dirent_seed=1, io_dir=os.path.join(workdir, "io"))
+        argv += ["Companion0.qml"]
     argv.append(type_name + ".qml")
     res = kernel.run(env, workdir, argv, hash_seed=hash_seed, dirent_seed=1, io_dir=os.path.join(workdir, "io"))
     out = {"exit": res.exit_status, "signal": res.signal, "stderr": res.stderr, "ui": None, "header": None}
